@@ -70,6 +70,10 @@ def parseInput? (s : String) : Option Input :=
     let cell ← parseCell? [a, b, c, d]
     match k, rest with
     | "p", [] => pure ⟨cell, .plain⟩
+    | "d", [] => pure ⟨cell, .plain⟩
+    | "g1", [] => pure ⟨cell, .plain⟩
+    | "g2", [] => pure ⟨cell, .plain⟩
+    | "g3", [] => pure ⟨cell, .plain⟩
     | "s", [] => pure ⟨cell, .satoshi⟩
     | "w", [dn, da, wn, wa] => do
       let dn ← parseNat? dn
@@ -99,9 +103,9 @@ def showDao (r : R DaoField) : String :=
   | .ok d => s!"ok {hexOf (pack d)} {d.ar} {d.c} {d.s} {d.u}"
   | .error e => errName e
 
-def showBr (r : R BlockReward) : String :=
+def showBr (target : Nat) (r : R BlockReward) : String :=
   match r with
-  | .ok b => s!"ok total={b.total} primary={b.primary} secondary={b.secondary} txfee={b.txFee} proposal={b.proposalReward}"
+  | .ok b => s!"ok target={target} total={b.total} primary={b.primary} secondary={b.secondary} txfee={b.txFee} proposal={b.proposalReward}"
   | .error e => errName e
 
 def step (s : St) (ts : List String) : St × String :=
@@ -154,9 +158,10 @@ def step (s : St) (ts : List String) : St × String :=
     | some [cl, far, n, d, ser] =>
       ({ win := ⟨cl, far⟩, ratio := ⟨n, d⟩, ser := ser }, "ok")
     | _ => (s, "bad-op")
-  | ["blk", n, props, ids, fees, st, len, base, rem, ar, c, s', u] =>
-    match parseNats? [n, st, len, base, rem, ar, c, s', u], parseNatList? props, parseNatList? ids,
-          parseNatList? fees with
+  | ["blk", n, props, uprops, ids, fees, st, len, base, rem, ar, c, s', u] =>
+    match parseNats? [n, st, len, base, rem, ar, c, s', u],
+          (do let a ← parseNatList? props; let b ← parseNatList? uprops; pure (a ++ b)),
+          parseNatList? ids, parseNatList? fees with
     | some [n, st, len, base, rem, ar, c, s', u], some props, some ids, some fees =>
       if n ≠ s.chain.length then (s, "bad-op") else
       ({ s with chain := s.chain ++ [⟨props, ids, fees⟩],
@@ -167,7 +172,7 @@ def step (s : St) (ts : List String) : St × String :=
     match parseNat? p with
     | some p =>
       if p < s.chain.length then
-        (s, showBr (blockRewardToFinalize s.win s.ratio s.ser s.chain
+        (s, showBr ((p + 1) - finalizationDelay s.win) (blockRewardToFinalize s.win s.ratio s.ser s.chain
               (fun n => s.epochs.getD n ⟨0, 0, 0, 0⟩) (fun n => s.daos.getD n ⟨0, 0, 0, 0⟩) p))
       else (s, "bad-op")
     | none => (s, "bad-op")
